@@ -50,6 +50,16 @@ def judge_generate(country: str, bank: str, account: str, branch: str):
     return ("ok" if ok else "bad"), sig, obs
 
 
+def judge_generate_as(country: str, spelled: str, bank: str, account: str, branch: str):
+    k, v = lib.outcome(lambda: lib.IBAN.generate(spelled, bank, account, branch))
+    if k == "foreign":
+        return "bad", f"foreign-exception-escapes:{v}", (k, v)
+    if k == "lib":
+        return "raised", None, (k, v)
+    ok, sig, obs = judge_built(country, v)
+    return ("ok" if ok else "bad"), sig, obs
+
+
 def judge_random(country: str, seed: int, use_registry: bool):
     k, v = lib.outcome(lambda: lib.IBAN.random(country, random=random.Random(seed),
                                                 use_registry=use_registry))
@@ -266,6 +276,14 @@ def sequence_shard(args):
             bank, branch, account = D[:bw], D[bw:bw + rw], D[bw + rw:bw + rw + aw]
             if country in ("IT", "SM", "FR", "MC", "MK"):
                 pass  # digits are admissible in their 'c' fields too
+            for odd in (country.lower(), " " + country, country + " "):
+                # whatever spelling of the country code the library accepts, what it builds validates
+                part.count((order, D[:10], odd))
+                st, sig, obs = judge_generate_as(country, odd, bank, account, branch)
+                if st == "bad":
+                    part.violation(f"{country}:{sig} [country code spelled {odd!r}]",
+                                   {"kind": "c09seq", "order": order, "country": odd, "bank": bank,
+                                    "account": account, "branch": branch}, "passes or raises", obs)
             part.count((order, D[:10], country))
             st, sig, obs = judge_generate(country, bank, account, branch)
             if st == "bad":
